@@ -53,25 +53,25 @@ type panicExit struct {
 
 // Exec verifies one function body.
 type Exec struct {
-	c        *Ctx
-	pkg      *pkgInfo
-	info     *types.Info
-	contract *Contract
-	entry    *State
-	frames   []*frame
-	returns  []retExit
-	panics   []panicExit
-	sig      *types.Signature
-	recv     *types.Var
-	results  []*types.Var
-	loopOrd  *int
-	scopePos token.Pos
-	body     *ast.BlockStmt
-	depth    int // inline depth
-	lets     map[string]SExpr
-	asserts  []bodyAssert
+	c           *Ctx
+	pkg         *pkgInfo
+	info        *types.Info
+	contract    *Contract
+	entry       *State
+	frames      []*frame
+	returns     []retExit
+	panics      []panicExit
+	sig         *types.Signature
+	recv        *types.Var
+	results     []*types.Var
+	loopOrd     *int
+	scopePos    token.Pos
+	body        *ast.BlockStmt
+	depth       int // inline depth
+	lets        map[string]SExpr
+	asserts     []bodyAssert
 	outerParams []*types.Var
-	pathTag  string
+	pathTag     string
 }
 
 type bodyAssert struct {
@@ -792,14 +792,14 @@ func (x *Exec) execTypeSwitch(n *ast.TypeSwitchStmt, st *State, label string) *S
 // assignedIn computes the set of variables (and heap fields / ghost effects)
 // possibly modified by the statements.
 type modSet struct {
-	touched map[types.Object]bool // receivers / pointer or object arguments of calls: pointee and ghost state may change
-	partial map[types.Object]bool // only elements / fields stored (x[i] = v, x.f = v): header (len, nil-ness) unchanged
+	touched map[types.Object]bool           // receivers / pointer or object arguments of calls: pointee and ghost state may change
+	partial map[types.Object]bool           // only elements / fields stored (x[i] = v, x.f = v): header (len, nil-ness) unchanged
 	pfields map[types.Object]map[string]int // partial stores that all go through a first-level field: field name -> 1 (below the field: x.f[i] = v) | 2 (the field itself: x.f = v)
 	pall    map[types.Object]bool           // some partial store does not start with a field selection
-	vars   map[types.Object]bool
-	heap   map[string]bool
-	yields bool
-	calls  bool
+	vars    map[types.Object]bool
+	heap    map[string]bool
+	yields  bool
+	calls   bool
 }
 
 func (x *Exec) modifiedIn(nodes ...ast.Node) *modSet {
@@ -1130,7 +1130,7 @@ func (x *Exec) havoc(st *State, ms *modSet, hint string) {
 	if len(hs) > 0 {
 		if a, ok := st.ghost["alloc"]; ok {
 			na := x.c.fresh(hint+".alloc", SInt)
-			x.c.assumeHere( tGe(na, a.(Sc).T))
+			x.c.assumeHere(tGe(na, a.(Sc).T))
 			st.ghost["alloc"] = scInt(na)
 		}
 	}
@@ -1140,10 +1140,10 @@ func (x *Exec) havoc(st *State, ms *modSet, hint string) {
 			ny := x.c.freshLike(hint+".Y", ys).(Sl)
 			ny.Off = "0"
 			ny.Nil = tFalse
-			x.c.assumeHere( tGe(ny.Len, ys.Len))
+			x.c.assumeHere(tGe(ny.Len, ys.Len))
 			// the trace only grows: the prefix is preserved
 			st.ghost["Y"] = ny
-			x.c.assumeHere( x.c.prefixFact(ys, ny))
+			x.c.assumeHere(x.c.prefixFact(ys, ny))
 			st.ghost["stopped"] = scBool(x.c.fresh(hint+".stopped", SBool))
 		}
 	}
@@ -1609,7 +1609,7 @@ func (x *Exec) decodeKey(k string, t types.Type, st *State) Val {
 	case kArray:
 		at := t.Underlying().(*types.Array)
 		v := x.c.freshVal("key", t, nil).(Ar)
-		x.c.assumeHere( tEq(encodeKey(v), k))
+		x.c.assumeHere(tEq(encodeKey(v), k))
 		_ = at
 		return v
 	}
